@@ -111,5 +111,86 @@ func groups() []Group {
 					Rename: map[string]string{"CreateTokenResponse()": "Hand.issueForRefresh now", "unimplementedGrantError()": "Hand.unimplementedGrantError"}},
 			},
 		},
+		{Out: "AuthzTables.lean", Extra: authzTables},
+		{
+			Out:     "Authorize.lean",
+			Imports: []string{"OidcModel.Model.Authz"},
+			Opens:   []string{"Go", "Hand", "Const"},
+			Funcs:   authzFuncs(),
+		},
 	}
+}
+
+// ---- C03: the authorization endpoint (redirect-URI validation, error redirects, callback) of both routers
+
+const (
+	pO  = "(o : UriOracle)"
+	pD  = "(d : AuthDeps)"
+	pCl = "(client : OPClient)"
+)
+
+var azRename = map[string]string{
+	"url.Parse()": "(o).urlParse", "net.ParseIP()": "(o).parseIP", "doublestar.Match()": "(o).globMatch",
+	"HTTPLoopbackOrLocalhost()":          "HTTPLoopbackOrLocalhost now o",
+	"checkURIAgainstRedirects()":         "checkURIAgainstRedirects now o",
+	"validateAuthReqRedirectURINative()": "validateAuthReqRedirectURINative now o",
+	"ValidateAuthReqRedirectURI()":       "ValidateAuthReqRedirectURI now o",
+	"ValidateAuthReqPrompt()":            "(d).ValidateAuthReqPrompt",
+	"ValidateAuthReqScopes()":            "(d).ValidateAuthReqScopes",
+	"ValidateAuthReqIDTokenHint()":       "(d).ValidateAuthReqIDTokenHint",
+	"ParseRequestObject()":               "(d).ParseRequestObject",
+	"CreateTokenResponse()":              "(d).CreateTokenResponse",
+	"CreateAuthRequestCode()":            "(d).CreateAuthRequestCode",
+	"IssuerFromContext()":                "\"\"",
+	"AuthResponseURL()":                  "AuthResponseURL now o",
+	"TryErrorRedirect()":                 "TryErrorRedirect now o",
+	"AuthRequestError()":                 "AuthRequestError now o",
+	"AuthResponse()":                     "AuthResponse now o d",
+	"AuthResponseCode()":                 "AuthResponseCode now o d",
+	"AuthResponseToken()":                "AuthResponseToken now o d",
+	"AuthResponseFormPost()":             "Hand.AuthResponseFormPost now",
+	"s.server.VerifyAuthRequest()":       "LegacyVerifyAuthRequest now d (s).server",
+	"s.server.Authorize()":               "LegacyAuthorize now o d (s).server",
+	"ClientRequest{}":                    "Hand.mkClientRequest",
+	"<*ast.StructType>{}":                "Hand.codeResponse",
+}
+
+func authzFuncs() []FuncSpec {
+	const ar = "pkg/op/auth_request.go"
+	fs := []FuncSpec{
+		{File: "pkg/op/client.go", Name: "ContainsResponseType", Lean: "ContainsResponseType",
+			Params: []string{"(types : List String)", "(responseType : String)"}, Ret: RetVal, RetType: "Bool"},
+		{File: "pkg/op/client.go", Name: "IsConfidentialType", Lean: "IsConfidentialType", Params: []string{"(c : OPClient)"}, Ret: RetVal, RetType: "Bool"},
+		{File: ar, Name: "equalURI", Lean: "equalURI", Params: []string{"(url1 url2 : URL)"}, Ret: RetVal, RetType: "Bool"},
+		{File: ar, Name: "HTTPLoopbackOrLocalhost", Lean: "HTTPLoopbackOrLocalhost", Params: []string{pO, "(rawURL : String)"}, Ret: RetVal, RetType: "(URL × Bool)"},
+		{File: ar, Name: "checkURIAgainstRedirects", Lean: "checkURIAgainstRedirects", Params: []string{pO, pCl, "(uri : String)"}, Ret: RetErr},
+		{File: ar, Name: "validateAuthReqRedirectURINative", Lean: "validateAuthReqRedirectURINative", Params: []string{pO, pCl, "(uri : String)"}, Ret: RetErr},
+		{File: ar, Name: "ValidateAuthReqRedirectURI", Lean: "ValidateAuthReqRedirectURI", Params: []string{pO, pCl, "(uri : String)", "(responseType : String)"}, Ret: RetErr},
+		{File: ar, Name: "ValidateAuthReqResponseType", Lean: "ValidateAuthReqResponseType", Params: []string{pCl, "(responseType : String)"}, Ret: RetErr},
+		{File: ar, Name: "ValidateAuthRequestClient", Lean: "ValidateAuthRequestClient",
+			Params: []string{pO, pD, "(authReq : AuthRequestData)", pCl, "(verifier : Unit)"}, Ret: RetValErr, RetType: "String"},
+		{File: ar, Name: "AuthResponseURL", Lean: "AuthResponseURL",
+			Params: []string{pO, "(redirectURI responseType responseMode : String)", "(response : RespParams)", "(encoder : Encoder)"}, Ret: RetValErr, RetType: "OutURL"},
+		{File: "pkg/op/error.go", Name: "TryErrorRedirect", Lean: "TryErrorRedirect",
+			Params: []string{pO, "(authReq : ErrReq)", "(parent : String)", "(encoder : Encoder)", "(logger : Unit)"}, Ret: RetValErr, RetType: "Redirect"},
+		{File: "pkg/op/error.go", Name: "AuthRequestError", Lean: "AuthRequestError",
+			Params: []string{pO, "(authReq : ErrReq)", "(err : String)", "(authorizer : AzProvider)"}, Ret: RetHandler},
+		{File: "pkg/op/server_legacy.go", Name: "LegacyServer.VerifyAuthRequest", Lean: "LegacyVerifyAuthRequest",
+			Params: []string{pD, "(s : AzLegacyServer)", "(r : Request AuthRequestData)"}, Ret: RetValErr, RetType: "(ClientRequest AuthRequestData)"},
+		{File: "pkg/op/server_legacy.go", Name: "LegacyServer.Authorize", Lean: "LegacyAuthorize",
+			Params: []string{pO, pD, "(s : AzLegacyServer)", "(r : ClientRequest AuthRequestData)"}, Ret: RetValErr, RetType: "Redirect"},
+		{File: "pkg/op/server_http.go", Name: "webServer.authorize", Lean: "WebAuthorize",
+			Params: []string{pO, pD, "(s : AzWebServer)", "(r : Request AuthRequestData)"}, Ret: RetValErr, RetType: "Redirect"},
+		{File: ar, Name: "RedirectToLogin", Lean: "RedirectToLogin", Params: []string{"(authReqID : AzStored)", pCl}, Ret: RetHandler},
+		{File: ar, Name: "ParseAuthorizeCallbackRequest", Lean: "ParseAuthorizeCallbackRequest", Params: []string{"(r : HttpReq)"}, Ret: RetValErr, RetType: "String"},
+		{File: ar, Name: "AuthResponseToken", Lean: "AuthResponseToken",
+			Params: []string{pO, pD, "(authReq : AzStored)", "(authorizer : AzProvider)", pCl}, Ret: RetHandler},
+		{File: ar, Name: "AuthResponseCode", Lean: "AuthResponseCode", Params: []string{pO, pD, "(authReq : AzStored)", "(authorizer : AzProvider)"}, Ret: RetHandler},
+		{File: ar, Name: "AuthResponse", Lean: "AuthResponse", Params: []string{pO, pD, "(authReq : AzStored)", "(authorizer : AzProvider)"}, Ret: RetHandler},
+		{File: ar, Name: "AuthorizeCallback", Lean: "AuthorizeCallback", Params: []string{pO, pD, "(r : HttpReq)", "(authorizer : AzProvider)"}, Ret: RetHandler},
+	}
+	for i := range fs {
+		fs[i].Rename = azRename
+	}
+	return fs
 }
